@@ -571,3 +571,50 @@ func t8name(v ssa.Value) string {
 	}
 	return an.Path(v)
 }
+
+// T9: a split changes the dimension of the type its value is checked against.  SplitExp.FindTypedRefs
+// receives the type of ONE element; the collection the split ranges over has one more array or map
+// dimension (or, for a reference, the arm strips it from the reference's own type).  Every arm
+// derives the type for the value from t - GetMap, GetArray, AddDim, a decremented TypeId - before
+// it delegates.  An arm that hands t itself to the value's FindTypedRefs checks a collection
+// against its element type: `split` over a map or array literal that comes out of a disabled
+// pipeline is accepted by the compiler and then refused ("unexpected map (expected int)") when the
+// call graph is built.
+func ruleT9(c *an.Ctx) {
+	fn := c.NeedFunc(pkgSyntax, "(*SplitExp).FindTypedRefs")
+	if fn == nil || len(fn.Params) < 3 {
+		return
+	}
+	t := fn.Params[2]
+	n := 0
+	an.Instrs(fn, func(in ssa.Instruction) {
+		cl, ok := in.(*ssa.Call)
+		if !ok {
+			return
+		}
+		var typeArg ssa.Value
+		arm := ""
+		if cl.Call.IsInvoke() {
+			if cl.Call.Method.Name() != "FindTypedRefs" || len(cl.Call.Args) < 2 {
+				return
+			}
+			typeArg = cl.Call.Args[1]
+			arm = an.Path(cl.Call.Value)
+		} else {
+			f := cl.Call.StaticCallee()
+			if f == nil || f.Name() != "FindTypedRefs" || len(cl.Call.Args) < 3 {
+				return
+			}
+			if f == fn {
+				return // a split handed to a split adds the dimension itself
+			}
+			typeArg = cl.Call.Args[2]
+			arm = an.Path(cl.Call.Args[0])
+		}
+		n++
+		raw := an.Strip(typeArg) == ssa.Value(t)
+		c.Check("T9", "split-value-checked-against-collection-type("+arm+")@(*SplitExp).FindTypedRefs", in.Pos(), !raw,
+			"the element type of the split is handed unchanged to the FindTypedRefs of the value the split ranges over: the collection is checked against the type of one element, so a program the compiler accepted (split over a map or array literal behind a disabled pipeline) is refused when its call graph is built")
+	})
+	c.Floor("T9", "delegations of SplitExp.FindTypedRefs to a value", n, 2)
+}
